@@ -25,6 +25,7 @@ def plan(tier, seed):
     n = 12 if tier == 'quick' else 48
     specs = [dict(seed=seed, shard=i, of=n, reps=reps) for i in range(n)]
     specs += [dict(kind='insn', seed=seed, shard=100 + i, n=2500 if tier == 'quick' else 120000) for i in range(4 if tier == 'quick' else 16)]
+    specs += [dict(kind='bytewise', seed=seed, shard=200 + i, n=2500 if tier == 'quick' else 100000) for i in range(4 if tier == 'quick' else 16)]
     return specs
 
 
@@ -134,6 +135,81 @@ def insn_rotated(spec, ls):
             ls.report('C13|insn-rotated-load|%s|E%d|lane%d' % (name, e, addr & 3), dict(desc, why=why), desc)
 
 
+def bytewise(spec):
+    """reference-free: with the protection unit ON, an unaligned MemU access of 2/4/8 bytes is equivalent to the individual
+    byte transfers - same bytes, same abort (the first byte that is denied), same memory afterwards.  Regions are generated
+    at random and the accesses are placed across their borders."""
+    from vf import scen, machine as M, observe, lockstep
+    from vf.props import c14
+    from armulator.armv6.arm_exceptions import DataAbortException
+    rng = rng_for(ID, 'bytewise', spec['seed'], spec['shard'])
+    ls = lockstep.LockStep(ID, rng)
+    res = ls.res
+    for i in range(spec['n']):
+        ctx = ls.ctx(rng.choice([('v7-pmsa-r', 'off'), ('v6-pmsa-sec', 'off'), ('v6-pmsa', 'off')]))
+        e = rng.randrange(2)
+        mode = rng.choice(['svc', 'usr', 'sys'])
+        scen.prepare(ctx, rng, 'arm', 0xE1A00000, mode=mode, e=e)
+        cpu = ctx.cpu
+        regions = c14.gen_regions(rng)
+        c14.program(cpu, regions, m=1, br=rng.randrange(2))
+        cpu.registers.sctlr.u = 1
+        cpu.registers.sctlr.a = 0
+        size = rng.choice([2, 4, 4, 8])
+        addrs = c14.interesting_addresses(rng, [x for x in regions if x[4]][:6])
+        addr = (rng.choice(addrs) - rng.randrange(0, size)) & 0xFFFFFFFF
+        if addr % size == 0:
+            addr = (addr + 1) & 0xFFFFFFFF
+        unpriv = rng.random() < 0.3
+        is_store = rng.random() < 0.5
+        value = rng.getrandbits(8 * size)
+        base = observe.snapshot(cpu)
+        M.activate(cpu)
+
+        def run(whole):
+            observe.restore(cpu, base)
+            out = dict(abort=None, val=None)
+            try:
+                if whole:
+                    if is_store:
+                        (cpu.mem_u_unpriv_set if unpriv else cpu.mem_u_set)(addr, size, value)
+                    else:
+                        out['val'] = (cpu.mem_u_unpriv_get if unpriv else cpu.mem_u_get)(addr, size)
+                else:
+                    bs = value.to_bytes(size, 'big' if e else 'little')
+                    got = bytearray()
+                    for k in range(size):
+                        a = (addr + k) & 0xFFFFFFFF
+                        if is_store:
+                            (cpu.mem_u_unpriv_set if unpriv else cpu.mem_u_set)(a, 1, bs[k])
+                        else:
+                            got.append((cpu.mem_u_unpriv_get if unpriv else cpu.mem_u_get)(a, 1))
+                    if not is_store:
+                        out['val'] = int.from_bytes(bytes(got), 'big' if e else 'little')
+            except DataAbortException as ex:
+                out['abort'] = (ex.abort_type.name, cpu.registers.dfar, cpu.registers.dfsr.value & 0x1FFF)
+            except Exception as ex:        # noqa
+                out['abort'] = ('HOST:' + type(ex).__name__,)
+            snap = observe.snapshot(cpu)
+            out['mem'] = tuple(snap[k_] for k_ in sorted(snap) if k_.startswith('mem') and not k_.startswith('memgeom'))
+            return out
+        a_, b_ = run(True), run(False)
+        res['evaluations'] += 1
+        ls.bump('bytewise_equivalences_checked')
+        if a_['abort'] or b_['abort']:
+            ls.bump('bytewise_cases_with_abort')
+        cell = 'bytewise|s%d|%s|%s|%s' % (size, 'store' if is_store else 'load', 'abort' if b_['abort'] else 'ok', 'unpriv' if unpriv else mode)
+        res['nontrivial'].add(cell)
+        if a_ != b_:
+            what = 'abort' if a_['abort'] != b_['abort'] else ('value' if a_['val'] != b_['val'] else 'memory')
+            ls.report('C13|bytewise-equivalence|%s|%s|size%d' % ('store' if is_store else 'load', what, size),
+                      dict(address=hex(addr), size=size, e=e, mode=mode, unprivileged_variant=unpriv, value=hex(value),
+                           regions=[(hex(b), rs, hex(sd), ap, en) for b, rs, sd, ap, en in regions if en],
+                           whole=dict(abort=a_['abort'], val=a_['val']), bytes=dict(abort=b_['abort'], val=b_['val'])), dict(address=addr))
+    res['violations'] = list(ls.viol.values())
+    return res
+
+
 def insn_roundtrip(spec):
     """reference-free, at the instruction level: a store followed by a load of the same size at the same address returns
     the stored value (sign-/zero-extended), the bytes in memory are the value in CPSR.E order, and no other byte changes"""
@@ -235,6 +311,8 @@ def insn_roundtrip(spec):
 def run_shard(spec):
     if spec.get('kind') == 'insn':
         return insn_roundtrip(spec)
+    if spec.get('kind') == 'bytewise':
+        return bytewise(spec)
     from vf import scen, machine as M, observe, lockstep
     from vf.ref.model import RefCPU, RefAbort, RefUnpredictable, RefNotModelled
     from vf.ref import mem as RM      # noqa
@@ -360,6 +438,8 @@ def finish(agg, tier, seed):
         inc.append('only %d of 1536 cells covered' % len(agg['sets'].get('cells', ())))
     if agg['counters'].get('fetches_E1', 0) < 100:
         inc.append('too few big-endian fetches')
+    if agg['counters'].get('bytewise_cases_with_abort', 0) < 300:
+        inc.append('too few byte-wise equivalence cases with an abort (%d)' % agg['counters'].get('bytewise_cases_with_abort', 0))
     if agg['counters'].get('insn_rotated_loads', 0) < 1000:
         inc.append('too few legacy rotated loads at the instruction level (%d)' % agg['counters'].get('insn_rotated_loads', 0))
     if agg['counters'].get('insn_roundtrips', 0) < 3000:
